@@ -30,6 +30,11 @@ CHECKS = {
         text="A recording writer observes what the real flusher hands over; entries logged before the flush request must be written exactly once, undivided, per-goroutine in order when FlushLogger returns. The losing interleaving named in the property is forced deterministically through the verif yield point between the flusher's two selects and also reached naturally; queue occupancies 0/1/100/9999 and over-capacity bursts are produced with a gated writer; child processes (no hook involved) decide the flush of a >1 s old process and the panic-triggered exit for four panic value kinds.",
         note="In-process trials re-arm the one-shot flush through the verif hook VerifResetFlush, which re-creates the flush contexts; properties of their initial construction are therefore decided by the child-process trials only. A flush taking >= the 1 s flush timeout is inconclusive.",
         design="DESIGN.md §4 C20"),
+    "C13": dict(
+        technique="runtime monitor: reference member-list model over sequential histories, exact rotation/weighted-cycle counting, porcupine linearizability check of recorded concurrent histories, race detector on selector state, child processes with write-ahead case log",
+        text="Every selector (roundrobin, random, modhash, consistent hash Ketama/default; weighted and not) runs seeded Refresh/Add/Remove/Select histories against an ordered-member model (non-member, wrong error, panic = violation); round-robin rotation and the weighted-cycle formula are counted exactly over full cycles, also with 4..16 concurrent selecting goroutines; concurrent histories with updaters are recorded at the call boundary and checked with porcupine against the membership model; race reports with an accessing frame in tars/selector are violations; a crash or CPU-burning hang of the child is attributed to the last announced case.",
+        note="Weighted-cycle formula judged for all-positive static weights only. Members are removed by their stored endpoint value (as the endpoint manager does). Weights for weighted consistent hashing are capped at 2000 (ring size is linear in the weight by design). Manager-level selection is covered under C14/C15.",
+        design="DESIGN.md §4 C13"),
 }
 
 NOT_BUILT_REASON = "check not built yet in this session (runtime-monitoring design exists in DESIGN.md §4; machinery in progress) — not claimed until its monitor runs silent on the unchanged tree"
